@@ -52,7 +52,7 @@ C19_STATIC_ALLOW = {
 
 # peak resident memory of the heavy units in GB (measured by the builders / the coordinator; everything else is below 2 GB)
 MEM_GB = {'htp_connp_req_data': 13, 'htp_connp_res_data': 13, 'htp_connp_RES_LINE_blank': 10, 'htp_connp_RES_LINE_body': 10, 'htp_connp_RES_LINE_status': 10,
-          'htp_connp_REQ_HEADERS': 8, 'htp_connp_RES_FINALIZE': 6, 'htp_parse_uri_unb': 8, 'htp_connp_RES_BODY_DETERMINE': 6, 'htp_connp_REQ_FINALIZE': 4,
+          'htp_connp_REQ_HEADERS': 8, 'htp_connp_RES_HEADERS': 8, 'htp_connp_RES_FINALIZE': 6, 'htp_parse_uri_unb': 8, 'htp_connp_RES_BODY_DETERMINE': 6, 'htp_connp_REQ_FINALIZE': 4,
           'htp_connp_REQ_CONNECT_PROBE_DATA': 4, 'htp_tx_state_response_headers': 6, 'htp_tx_state_response_headers_12': 8, 'htp_parse_hostport': 4}
 
 
